@@ -1057,7 +1057,18 @@ def seq_getitem(eng, seq, idx):
 
 def slist_getitem(eng, lst, idx):
     if isinstance(idx, slice):
-        raise EngineError('slice of symbolic list')
+        if idx.step is not None or len(lst.chunks) != 1 or lst.chunks[0][0] != 'seq':
+            raise EngineError('slice form of a symbolic list not modelled')
+        seq = lst.chunks[0][1]
+        lo = idx.start or 0
+        hi = idx.stop
+        if not isinstance(lo, int) or lo < 0 or not (hi is None or (isinstance(hi, int) and hi <= 0)):
+            raise EngineError('slice bounds of a symbolic list not modelled')
+        ln = r_sub(seq.length, lo - (hi or 0))
+        ln = ite(r_cmp('>', ln, 0), ln, 0)
+        sub = SSeq(ln, lambda i, seq=seq, lo=lo: seq.at(r_add(i, lo)), '%s[%s:%s]' % (seq.label, lo or '', hi or ''))
+        sub.slice_of = (seq, lo, hi)
+        return SList([('seq', sub)])
     total = lst.length()
     if eng.decide(r_cmp('<', idx, 0)):
         idx = r_add(idx, total)
